@@ -45,6 +45,26 @@ pub fn run(rep: &mut Report, thorough: bool) {
             f[6..12].copy_from_slice(&macs[d[0] as usize]);
             f
         });
+        // neighbour discovery: the advertisement is sourced from the solicited target whatever the
+        // IP destination of the solicitation was (unicast = target, another handled address, a
+        // foreign unicast address, solicited-node multicast, all-nodes)
+        let tg: Vec<Ip> = vec![srv6(), srv6b()];
+        let nsd: Vec<(Ip, Mac)> = vec![
+            (srv6(), MAC_SRV),
+            (srv6b(), MAC_SRV),
+            (Ip::parse("2001:db8::77"), MAC_SRV),
+            (Ip::parse("fe80::1"), MAC_SRV),
+            (Ip::parse("ff02::1:ff00:1"), [0x33, 0x33, 0xff, 0, 0, 1]),
+            (Ip::parse("ff02::1:ffab:cdef"), [0x33, 0x33, 0xff, 0xab, 0xcd, 0xef]),
+            (Ip::parse("ff02::1"), [0x33, 0x33, 0, 0, 0, 1]),
+            (Ip::parse("::"), MAC_SRV),
+        ];
+        let dims = [tg.len() as u64, nsd.len() as u64, ip6.len() as u64, macs.len() as u64];
+        sweep_frames(rep, &cfg, &format!("nd-addressing-{}", tag), "ND target (2) x IP destination forms (8) x source address (8) x source MAC (8)", product(&dims), |i| {
+            let d = unrank(i, &dims);
+            let (dip, dmac) = &nsd[d[1] as usize];
+            eth(dmac, &macs[d[3] as usize], ET_IP6, &nd_ns(&ip6[d[2] as usize], dip, &tg[d[0] as usize], &slla(&MAC_CLI), 0))
+        });
         // port sweeps, UDP payloads and TCP SYN
         let stun = stun_magic(&[], &ID12);
         let stun_cp = stun_classic(&stun_attr(3, &[0, 0, 0, 2]), &ID16);
